@@ -5,7 +5,9 @@
    Plans are functions in the model, so "the same query and parameters give the same SQL" is
    the statement that the result does not depend on the state earlier calls left. *)
 From Coq Require Import List ZArith NArith String Bool Permutation.
+From Qryn Require model.TqSql model.Traceql model.TraceqlPlan.
 From Qryn Require Import model.Sql model.SqlRender model.Logql model.LogqlPlan model.LogqlCases model.Replan proofs.ReplanProofs.
+From Qryn Require Import model.ProfSel model.ReplanLang proofs.ReplanLangProofs.
 Import ListNotations.
 
 (* No Process method changes the plan object: whatever the planner tree, context and state, the
@@ -88,6 +90,86 @@ Proof.
 Qed.
 Print Assumptions settings_order_matters.
 
+(* One context, exactly: a plan in which no planner draws an id from the context (no SimpleLabelFilter,
+   MainRenew, ByWithout planner) yields, under a context that has already handed out any number of ids and
+   from any state, exactly the statements of never executed plans under new contexts. *)
+Theorem reexecution_one_context_exact_partial :
+  forall p k c st, is_root p = true -> draws_ids p = false -> run_plan k p c st = fresh_seq k p c.
+Proof. intros p k c st R D. exact (reuse_is_fresh_exact p R D k c st). Qed.
+Print Assumptions reexecution_one_context_exact_partial.
+
+(* Without the guard the exact statement is false: the aliases subsel_n carry the counter (the witness plan,
+   two executions). That they differ ONLY in these numbers is checked on every case by the harness oracle
+   (alias canonicaliser), not proved. *)
+Theorem reexecution_one_context_exact_refuted :
+  ~ (forall p k c st, is_root p = true -> run_plan k p c st = fresh_seq k p c).
+Proof.
+  intro H. pose proof reuse_exact_needs_guard as W. pose proof witness_plans as [p0 [E0 R0]].
+  unfold witness_plan in *. rewrite E0 in W. destruct W as [_ [D _]].
+  rewrite (H p0 2%nat witness_ctx pst0 R0) in D.
+  assert (X : forall l, olist_eqb l l = true).
+  { induction l as [|[x|] r IHl]; cbn; [reflexivity| |exact IHl]. rewrite String.eqb_refl. exact IHl. }
+  rewrite X in D. discriminate D.
+Qed.
+Print Assumptions reexecution_one_context_exact_refuted.
+
+(* What a Process call can depend on. `process p c st` is a function of
+     p  : the plan object as planner.plan() built it (the planner structs and their immutable fields),
+     c  : the fields of shared.PlannerContext the planners read (From, To, Limit, OrderASC, IsCluster, Type,
+          CHFinalize, Step and the table names filled in by tables.PopulateTableNames),
+     st : the three mutable things reachable from Process: planner.fpCache, planner.labelsCache (WITH objects
+          shared by the planners of one plan) and PlannerContext.id;
+   and of nothing else: two states that agree on these three components give the same result, and for a
+   plan root only the counter matters. (That the Go code has no further input -- package-level variables -- is
+   the regenerated obligation translation_package_state of coq/gen/GenSqlSites.v and the fresh2/conc/top drive modes.) *)
+Theorem process_depends_only_on_its_arguments :
+  forall p c st st', fp_cache st = fp_cache st' -> labels_cache st = labels_cache st' -> pid st = pid st' ->
+  process p c st = process p c st'.
+Proof. exact process_inputs. Qed.
+Print Assumptions process_depends_only_on_its_arguments.
+
+Theorem root_depends_only_on_the_counter :
+  forall p c st st', is_root p = true -> pid st = pid st' -> process p c st = process p c st'.
+Proof. exact root_inputs. Qed.
+Print Assumptions root_depends_only_on_the_counter.
+
+(* TraceQL (C11's model TraceqlPlan.plan q mode ctx n = the statement of the n-th Process call on the planners
+   built for script q): the statement does not depend on how often the plan object was executed before ... *)
+Theorem traceql_call_independent :
+  forall q m c n n', TraceqlPlan.plan q m c n = TraceqlPlan.plan q m c n'.
+Proof. exact plan_call_independent. Qed.
+Print Assumptions traceql_call_independent.
+
+(* ... so any sequence of Process calls on one plan object, each under its own context, yields call by call what
+   plan objects built for that call alone yield; in particular the portion loop of ComplexRequestProcessor, whatever
+   RandomFilter index, cached trace ids and From each portion is handed. *)
+Theorem traceql_reexecution_same_text :
+  forall q m cs n, tq_run_calls q m cs n = tq_fresh_calls q m cs.
+Proof. intros q m cs n. exact (tq_run_is_fresh q m cs n). Qed.
+Print Assumptions traceql_reexecution_same_text.
+
+Theorem traceql_portion_loop_same_text :
+  forall q c ps, tq_portion_loop q c ps =
+                 tq_fresh_calls q TraceqlPlan.MSearch (portion_ctxs c (Z.of_nat (List.length ps)) 0 ps).
+Proof. intros q c ps. unfold tq_portion_loop. apply tq_run_is_fresh. Qed.
+Print Assumptions traceql_portion_loop_same_text.
+
+(* Profile selectors (C17's model ProfSel.prof_selector): StreamSelectorPlanner.Process writes no field of the
+   planner; the statements of successive executions of one object are those of the pure function, window by
+   window. The content is the tie: checks/c14.py compares this with k executions of ONE real planner object. *)
+Theorem prof_reexecution_same_text :
+  forall table cluster sels ws,
+    prof_run table cluster sels ws = map (fun w => render (prof_selector table (fst w) (snd w) sels) cluster) ws.
+Proof. exact prof_run_is_fresh. Qed.
+Print Assumptions prof_reexecution_same_text.
+
 (* hypotheses are satisfiable: the witness query plans to a root *)
 Example witness_is_root : exists p, plan_log witness_sel true = Some p /\ is_root p = true.
 Proof. exact witness_plans. Qed.
+(* ... and a plan that draws no id exists and renders *)
+Example noid_plan_meets_the_guard :
+  match plan_log noid_sel true with
+  | Some p => is_root p = true /\ draws_ids p = false /\ fresh_seq 2 p witness_ctx <> [None]
+  | None => False
+  end.
+Proof. exact noid_plan_meets_guard. Qed.
